@@ -119,6 +119,29 @@ where
     };
     let el = gen::limbs(t, E);
     let eb = gens::shift_in(t, 64 * E as u32);
+    // one case in eight: a tuple on which the boxed (almost-Montgomery) ladder ends in one of its rare
+    // states — accumulator >= 2m (model search), or exactly 0 / m / 2m (late zero) — see c09::model
+    let (ml, class, mb, xl, yl, el, eb) = if t.chance(1, 8) {
+        let special = if t.bool() {
+            let (ml, base, e, _found) = c09::model::double_reduction_tuple(t, N);
+            Some((ml, base, e, "m in [0.42R, 0.495R): boxed ladder accumulator >= 2m (model search)"))
+        } else {
+            c09::model::late_zero_tuple(t, N).map(|(ml, base, e)| (ml, base, e, "m = p^k c: base^e = 0 through the last window only"))
+        };
+        match special {
+            Some((ml, base, e, class)) => {
+                let mb = big(&ml);
+                let xl = limbs_exact(&base, N);
+                let mut el2 = vec![0u64; E];
+                el2[0] = e;
+                let eb = t.pick(&[12u32, 16, 64 * E as u32]).min(64 * E as u32);
+                (ml, class, mb, xl.clone(), xl, el2, eb)
+            }
+            None => (ml, class, mb, xl, yl, el, eb),
+        }
+    } else {
+        (ml, class, mb, xl, yl, el, eb)
+    };
     c.limbs("m", &ml);
     c.limbs("x", &xl);
     c.limbs("y", &yl);
